@@ -302,8 +302,8 @@ pub fn mbuild(c: &Case, reverse_landmarks: bool) -> Result<MBuilt, Obs> {
         Ok(x) => x,
         Err(m) => return Err(Obs::fail("-", "harness-merged-walk", m)),
     };
-    if p0 != p0b || p0.to_string() != c.args[4] || fmt_mlayout(&mconts) != c.args[6] {
-        return Err(Obs::fail("-", "harness-layout-drift", format!("case layout {} {} vs built {} {}", c.args[4], c.args[6], p0, fmt_mlayout(&mconts))));
+    if p0 != p0b || p0.to_string() != c.args[4] {
+        return Err(Obs::fail("-", "harness-layout-drift", format!("case p0 {} vs built {}", c.args[4], p0)));
     }
     // the true landmarks (block walk) must be the stored ones
     for (k, ct) in mconts.iter().enumerate() {
@@ -327,7 +327,27 @@ pub fn mbuild(c: &Case, reverse_landmarks: bool) -> Result<MBuilt, Obs> {
     } else {
         (bytes, mconts)
     };
+    if fmt_mlayout(&mconts) != c.args[6] {
+        return Err(Obs::fail("-", "harness-layout-drift", format!("case layout {} vs built {}", c.args[6], fmt_mlayout(&mconts))));
+    }
     Ok(MBuilt { spec, repo, bytes, conts: mconts })
+}
+
+/// the layout text with the stored landmarks of every multi-slice container in reverse order
+pub fn reverse_layout(s: &str) -> String {
+    if s == "_" {
+        return s.into();
+    }
+    s.split(';')
+        .map(|t| {
+            let f: Vec<&str> = t.split(':').collect();
+            let sl: Vec<Vec<&str>> = f[3].split(',').map(|u| u.split('/').collect()).collect();
+            let n = sl.len();
+            let out: Vec<String> = (0..n).map(|i| format!("{}/{}/{}", sl[n - 1 - i][0], sl[i][1], sl[i][2])).collect();
+            format!("{}:{}:{}:{}", f[0], f[1], f[2], out.join(","))
+        })
+        .collect::<Vec<_>>()
+        .join(";")
 }
 
 /// record chunks per slice, in file order: (container index, slice index, records)
@@ -680,7 +700,11 @@ pub fn run_unm(c: &Case) -> Obs {
     match out {
         Outcome::Panicked(m) => Obs::fail("U=Panic", "cram-query-unmapped-panic", m),
         Outcome::Done(Ans::Panic(m)) => Obs::fail("U=Panic", "cram-query-unmapped-panic", m),
-        Outcome::Done(Ans::Err(k)) => Obs::fail(format!("U=Err:{k}"), "cram-query-unmapped-error", k),
+        Outcome::Done(Ans::Err(k)) => {
+            // no unplaced record: the reader seeks past the EOF container and reports UnexpectedEof
+            let tag = if want.is_empty() && k == "UnexpectedEof" { "cram-query-unmapped-no-unplaced-records-errors" } else { "cram-query-unmapped-error" };
+            Obs::fail(format!("U=Err:{k}"), tag, k)
+        }
         Outcome::Done(Ans::Names(names)) => {
             let obs = format!("U={}", ordinals(&names, n));
             let got: Vec<usize> = names.iter().filter_map(|s| s.strip_prefix('r').and_then(|t| t.parse::<usize>().ok())).collect();
@@ -711,6 +735,171 @@ pub fn run_unm(c: &Case) -> Obs {
             }
         }
     }
+}
+
+fn fmt_ans(a: &Ans, n: usize) -> String {
+    match a {
+        Ans::Names(v) => ordinals(v, n),
+        Ans::Err(k) => format!("Err:{k}"),
+        Ans::Panic(_) => "Panic".into(),
+    }
+}
+
+fn unmapped_through(b: &MBuilt, index: &crai::Index) -> Ans {
+    let n = b.spec.recs.len();
+    match guarded(std::panic::AssertUnwindSafe(|| -> Ans {
+        let mut rd = cram::io::reader::Builder::default()
+            .set_reference_sequence_repository(b.repo.clone())
+            .build_from_reader(Cursor::new(b.bytes.clone()));
+        let h = match rd.read_header() {
+            Ok(h) => h,
+            Err(e) => return Ans::Err(errkind(&e)),
+        };
+        let mut names = Vec::new();
+        match rd.query_unmapped(&h, index) {
+            Ok(it) => {
+                for r in it {
+                    match r {
+                        Ok(r) => names.push(name_of(&r)),
+                        Err(e) => return Ans::Err(errkind(&e)),
+                    }
+                    if names.len() > 4 * n + 8 {
+                        return Ans::Err("Runaway".into());
+                    }
+                }
+            }
+            Err(e) => return Ans::Err(errkind(&e)),
+        }
+        Ans::Names(names)
+    })) {
+        Outcome::Done(a) => a,
+        Outcome::Panicked(m) => Ans::Panic(m),
+    }
+}
+
+/// index -> crai::io::Writer -> (gunzip: the text) -> crai::io::Reader -> queries
+pub fn run_via(c: &Case) -> Obs {
+    let b = match mbuild(c, false) {
+        Ok(b) => b,
+        Err(o) => return o,
+    };
+    let regions = parse_regions(&c.args[7]);
+    let n = b.spec.recs.len();
+    let index = match index_of_bytes(&b.bytes, c) {
+        IndexResult::Ok(i) => i,
+        IndexResult::Err(k) => return Obs::fail(format!("T=Err:{k}"), "cram-index-error", k),
+        IndexResult::Panic(m) => return Obs::fail("T=Panic", "cram-index-panic", m),
+    };
+    let mut w = crai::io::Writer::new(Vec::new());
+    let gz = match w.write_index(&index).and_then(|_| w.finish()) {
+        Ok(g) => g,
+        Err(e) => return Obs::fail("T=Err", "crai-write-error", errkind(&e)),
+    };
+    let text = match gunzip(&gz) {
+        Ok(t) => t,
+        Err(e) => return Obs::fail("T=Err", "crai-not-gzip", errkind(&e)),
+    };
+    let back = match crai::io::Reader::new(&gz[..]).read_index() {
+        Ok(i) => i,
+        Err(e) => return Obs::fail(format!("T={};R=Err", nv::hex(&text)), "crai-roundtrip-error", errkind(&e)),
+    };
+    let direct = query_all(&b, &index, &regions, 0);
+    let via = query_all(&b, &back, &regions, 2);
+    let ud = unmapped_through(&b, &index);
+    let uv = unmapped_through(&b, &back);
+    let q: Vec<String> = via.iter().map(|a| fmt_ans(a, n)).collect();
+    let obs = format!("T={};Q={};U={}", nv::hex(&text), if q.is_empty() { "_".into() } else { q.join(";") }, fmt_ans(&uv, n));
+    let qd: Vec<String> = direct.iter().map(|a| fmt_ans(a, n)).collect();
+    let verdict = if back != index {
+        Err(("crai-roundtrip-differs".to_string(), format!("read back {}", fmt_entries(&back.iter().map(entry_of).collect::<Vec<_>>()))))
+    } else if q != qd {
+        Err(("crai-via-file-query-differs".to_string(), format!("direct {} via file {}", qd.join(";"), q.join(";"))))
+    } else if fmt_ans(&ud, n) != fmt_ans(&uv, n) {
+        Err(("crai-via-file-query-unmapped-differs".to_string(), format!("direct {} via file {}", fmt_ans(&ud, n), fmt_ans(&uv, n))))
+    } else {
+        Ok(())
+    };
+    Obs::ok(obs, !index.is_empty()).with_verdict(verdict)
+}
+
+/// mutation of the file bytes: `n` none, `c<k>` cut to k bytes, `f<k>` flip the low bit of byte k
+pub fn mutate(bytes: &[u8], m: &str) -> Vec<u8> {
+    let mut b = bytes.to_vec();
+    match m.as_bytes().first() {
+        Some(b'c') => b.truncate(m[1..].parse().unwrap()),
+        Some(b'f') => {
+            let k: usize = m[1..].parse().unwrap();
+            b[k] ^= 1;
+        }
+        _ => {}
+    }
+    b
+}
+
+/// args: base(7) mutation filehex.  The bytes of the case line ARE the file (two writes of the
+/// same records differ in the order of the external blocks -- the writer iterates a HashMap --
+/// so the file is not rebuilt here); its layout must be the one of the case line.
+pub fn run_hdr(c: &Case) -> Obs {
+    let spec = parse_spec(c);
+    let m = c.args[7].as_str();
+    let bytes = c.b(8);
+    struct B2 {
+        spec: FileSpec,
+        conts: Vec<MCont>,
+    }
+    let conts = if m == "n" {
+        match walk_m(&bytes) {
+            Ok((p0, conts, _)) if p0.to_string() == c.args[4] && fmt_mlayout(&conts) == c.args[6] => conts,
+            Ok((_, conts, _)) => return Obs::fail("-", "harness-layout-drift", format!("case layout {} vs bytes {}", c.args[6], fmt_mlayout(&conts))),
+            Err(e) => return Obs::fail("-", "cram-container-walk", e),
+        }
+    } else {
+        vec![]
+    };
+    let b = B2 { spec, conts };
+    match index_of_bytes(&bytes, c) {
+        IndexResult::Ok(i) => {
+            let got: Vec<Entry> = i.iter().map(entry_of).collect();
+            let obs = format!("H={}", fmt_entries(&got));
+            if m != "n" {
+                return Obs::fail(obs, "cram-index-accepts-damaged-file", m);
+            }
+            let Some(chunks) = slice_chunks(&b.spec, &b.conts) else {
+                return Obs::fail(obs, "cram-container-record-counts", fmt_mlayout(&b.conts));
+            };
+            let expected = expected_mindex(&b.conts, &chunks);
+            if got == expected { Obs::ok(obs, !got.is_empty()) } else { Obs::fail(obs, "crai-entry-wrong-vs-bytes", format!("got {} want {}", fmt_entries(&got), fmt_entries(&expected))) }
+        }
+        IndexResult::Err(k) => {
+            let obs = format!("H=Err:{k}");
+            if m == "n" { Obs::fail(obs, "cram-index-error", k) } else { Obs::ok(obs, true) }
+        }
+        IndexResult::Panic(msg) => Obs::fail("H=Panic", "cram-index-panic", msg),
+    }
+}
+
+/// byte ranges the model reads: container headers and slice header blocks
+fn modelled_ranges(bytes: &[u8]) -> Vec<(usize, usize)> {
+    let mut out = Vec::new();
+    if let Ok((_, conts, _)) = walk_m(bytes) {
+        for c in &conts {
+            out.push((c.offset as usize, (c.offset + c.header_len) as usize));
+            let body = (c.offset + c.header_len) as usize;
+            for s in &c.slices {
+                // the slice header block: method, type, id, sizes, data, crc
+                let st = body + s.landmark as usize;
+                let mut q = st + 2;
+                if itf8(bytes, &mut q).is_some() {
+                    if let Some(cs) = itf8(bytes, &mut q) {
+                        if itf8(bytes, &mut q).is_some() {
+                            out.push((st, q + cs as usize + 4));
+                        }
+                    }
+                }
+            }
+        }
+    }
+    out
 }
 
 // ---------------------------------------------------------------------------------------------
@@ -797,15 +986,56 @@ pub fn generate_multi(rng: &mut Rng, thorough: bool, w: &mut CaseWriter) {
         };
         let Some((base, _multi)) = mbase(rng, &spec, true) else { continue };
         let mut a = base.clone();
-        a.push(if rng.chance(1, 8) { "1" } else { "0" }.to_string());
+        if rng.chance(1, 8) {
+            a[6] = reverse_layout(&a[6]);
+            a.push("1".to_string());
+        } else {
+            a.push("0".to_string());
+        }
         w.push("midx", a);
         let mut a = base.clone();
         a.push(gen_regions(rng, &spec, 10));
         a.push(rng.below(3).to_string());
         w.push("mqry", a);
-        let mut a = base;
+        let mut a = base.clone();
         a.push(rng.below(2).to_string());
         w.push("unm", a);
+        if i % 2 == 0 {
+            let mut a = base;
+            a.push(gen_regions(rng, &spec, 6));
+            w.push("via", a);
+        }
+    }
+    // index from the bytes
+    let nfiles = if thorough { 1500 } else { 150 };
+    for i in 0..nfiles {
+        let mut spec = gen_spec(rng, i * 7 + 2);
+        if spec.recs.len() > 8 {
+            spec.recs.truncate(8);
+        }
+        spec.per_slice = rng.range(1, 4) as usize;
+        let Some((mut a, _)) = mbase(rng, &spec, true) else { continue };
+        // rebuild the bytes
+        let repo = repository(&spec);
+        let Ok(raw) = write_cram(&spec, &repo) else { continue };
+        let Ok((p0, conts, tail)) = walk_m(&raw) else { continue };
+        let Ok(bytes) = merge(&raw, &conts, tail, &parse_groups(&a[5]), false) else { continue };
+        let m = match rng.below(5) {
+            0 => format!("c{}", rng.range(p0, bytes.len() as u64 - 1)),
+            1 => {
+                let rs = modelled_ranges(&bytes);
+                if rs.is_empty() {
+                    "n".to_string()
+                } else {
+                    let (lo, hi) = *rng.pick(&rs);
+                    format!("f{}", rng.range(lo as u64, hi as u64 - 1))
+                }
+            }
+            _ => "n".to_string(),
+        };
+        a.push(m.clone());
+        a.push(nv::hex(&mutate(&bytes, &m)));
+        w.push("hdr", a);
     }
     // query_unmapped on files with placed records carrying the UNMAPPED flag
     let nfiles = if thorough { 6000 } else { 400 };
@@ -818,7 +1048,6 @@ pub fn generate_multi(rng: &mut Rng, thorough: bool, w: &mut CaseWriter) {
     }
 }
 
-#[allow(dead_code)]
 pub fn gunzip(b: &[u8]) -> std::io::Result<Vec<u8>> {
     let mut out = Vec::new();
     flate2::read::MultiGzDecoder::new(b).read_to_end(&mut out)?;
